@@ -454,6 +454,8 @@ pub fn run(ctx: &Ctx) -> Report {
         Item::Align("16".into()),
         Item::Label("A".into()),
         Item::Instr("ldw A".into()),
+        // in range only for the final value of the forward label (a first guess of 0 gives 0x103)
+        Item::Data(Some(8), vec!["0x103 - A".into()]),
     ];
     let kl = litems.len() as u64;
     let maxlen_l = if ctx.thorough { 6 } else { 5 };
